@@ -692,15 +692,59 @@ func checkC04(w *World, r *Report) {
 		if shareLoop == nil {
 			r.Unk("C04.everyshare", "loop over Destinations.Shares", w.Pos(fn.Pos()), "loop not found")
 		} else {
-			isShareSub := func(c *ssa.Call) bool {
-				if !strings.HasSuffix(callName(c.Common()), "types.DecCoins.Sub") || !chain[c.Common().Args[0]] {
-					return false
+			// the value finally credited to the primary destination, as a signed combination of loop-carried
+			// accumulators: V = (+)remainder (-)kept-aside ... ; on every iteration path the share must enter one of
+			// them with the sign that takes it off V (Sub on a positive accumulator, Add on a subtracted one)
+			signs := map[*ssa.Phi]int{}
+			var credited ssa.Value
+			for _, s := range cg.Sites[fn] {
+				if strings.Contains(s.Method, "addSharesToAccountState") && !inLoopOf(shareLoop, s.Instr.Block()) {
+					for _, a2 := range s.Args() {
+						if types.Identical(a2.Type(), inflow.Type()) {
+							credited = a2
+						}
+					}
 				}
-				pc, ok := c.Common().Args[1].(*ssa.Call)
+			}
+			if credited != nil {
+				accumulatorSigns(credited, +1, shareLoop.Header, signs, map[ssa.Value]bool{})
+			} else {
+				for v := range chain {
+					if phi, isPhi := v.(*ssa.Phi); isPhi && phi.Block() == shareLoop.Header {
+						signs[phi] = +1
+					}
+				}
+			}
+			isShareVal := func(v ssa.Value) bool {
+				pc, ok := v.(*ssa.Call)
 				if !ok || !strings.HasSuffix(callName(pc.Common()), "keeper.calculatePercentage") {
 					return false
 				}
 				return loadOfField(pc.Common().Args[0], "Share", nil) && pc.Common().Args[1] == ssa.Value(inflow)
+			}
+			isShareSub := func(c *ssa.Call) bool {
+				n := callName(c.Common())
+				args := c.Common().Args
+				if len(args) < 2 {
+					return false
+				}
+				phi, isPhi := args[0].(*ssa.Phi)
+				if !isPhi {
+					// the running value inside the iteration may already be a Sub/Add result of the accumulator
+					return false
+				}
+				sg, tracked := signs[phi]
+				if !tracked {
+					return false
+				}
+				arg := stripSlice(args[1])
+				if !isShareVal(arg) {
+					// variadic Add(x...) passes the coins as a slice conversion of the share value
+					if ct, ok := args[1].(*ssa.ChangeType); !ok || !isShareVal(ct.X) {
+						return false
+					}
+				}
+				return sg > 0 && strings.HasSuffix(n, "types.DecCoins.Sub") || sg < 0 && strings.HasSuffix(n, "types.DecCoins.Add")
 			}
 			ok := loopBodyMustPass(*shareLoop, func(b *ssa.BasicBlock) bool { return blockHasCall(b, isShareSub) }) && loopEarlyExit(*shareLoop) == nil
 			r.Check(ok, "C04.everyshare", "every share is taken from the remainder", w.Pos(shareLoop.Body.Instrs[0].Pos()), "every path through the loop body subtracts calculatePercentage(share.Share, inflow)",
@@ -1293,5 +1337,48 @@ func stripSlice(v ssa.Value) ssa.Value {
 		default:
 			return v
 		}
+	}
+}
+
+func inLoopOf(l *rangeLoop, b *ssa.BasicBlock) bool {
+	if l == nil {
+		return false
+	}
+	return loopBlocks(l.Header)[b]
+}
+
+// accumulatorSigns walks the expression of v through DecCoins.Sub / Add and phis and records, for every phi of the
+// given loop header it meets, the sign with which that accumulator enters v (+1 minuend side, -1 subtracted).
+func accumulatorSigns(v ssa.Value, sign int, header *ssa.BasicBlock, out map[*ssa.Phi]int, seen map[ssa.Value]bool) {
+	if v == nil || seen[v] {
+		return
+	}
+	seen[v] = true
+	switch x := v.(type) {
+	case *ssa.Phi:
+		if x.Block() == header {
+			if _, has := out[x]; !has {
+				out[x] = sign
+			}
+			return
+		}
+		for _, e := range x.Edges {
+			accumulatorSigns(e, sign, header, out, seen)
+		}
+	case *ssa.Call:
+		n := callName(x.Common())
+		args := x.Common().Args
+		switch {
+		case strings.HasSuffix(n, "types.DecCoins.Sub") && len(args) == 2:
+			accumulatorSigns(args[0], sign, header, out, seen)
+			accumulatorSigns(args[1], -sign, header, out, seen)
+		case strings.HasSuffix(n, "types.DecCoins.Add") && len(args) == 2:
+			accumulatorSigns(args[0], sign, header, out, seen)
+			accumulatorSigns(args[1], sign, header, out, seen)
+		}
+	case *ssa.ChangeType:
+		accumulatorSigns(x.X, sign, header, out, seen)
+	case *ssa.Slice:
+		accumulatorSigns(x.X, sign, header, out, seen)
 	}
 }
